@@ -5,5 +5,6 @@ CONSTANTS
   Tol = 0
   MaxRows = 4
   NKeys = 1
+  RankByLooks = FALSE
 CONSTRAINT Emit
 CHECK_DEADLOCK FALSE
